@@ -2,7 +2,7 @@
 # tools/seed-import.sh <ID> <k> : confirm a sub-agent's seeded change in a scratch copy and keep it under seeded/<ID>-<k>/
 # confirms: demo passes on the unchanged code, full suite passes with the change, demo fails with the change; then runs
 # the property's check against the changed scratch copy and records whether it was detected.
-id=$1; k=$2; src=/tmp/wt-$id/seed$k
+id=$1; k=$2; src=/tmp/wt-$id/seed$k; [ -d $src ] || src=/verif/seeded/.raw/$id/seed$k
 export GOFLAGS=-mod=mod GOPROXY=off VERIF_DIR=/verif
 [ -f $src/patch.diff ] || { echo "no $src/patch.diff"; exit 2; }
 dst=/verif/seeded/$id-$k; mkdir -p $dst; cp $src/patch.diff $src/meta.json $dst/; cp $src/demo_test.go $dst/demo_test.go.txt
